@@ -337,6 +337,12 @@ class World:
             return real[1] == ref[1]
         return same(real[1], ref[1])
 
+    @staticmethod
+    def _is_oserror(name):
+        import builtins
+        c = getattr(builtins, name, None)
+        return isinstance(c, type) and issubclass(c, OSError)
+
     def _tree_agrees(self, res, out):
         ref, run, _ = out
         if ref[0] != 'ok' or run is None:
@@ -366,6 +372,11 @@ class World:
     def _eq_ref(self, res):
         V = res.violations
         real, ref = res.real, res.ref
+        if (real[0] == 'exc' and ref[0] == 'exc' and res.fault and res.fault.get('fired') and
+                self._is_oserror(real[1]) and self._is_oserror(ref[1])):
+            # an injected fault surfaced: the library may convert the class (rmdir failing in
+            # _make_room becomes IsADirectoryError); any OSError will do
+            return
         if real[0] != ref[0] or (real[0] == 'exc' and real[1] != ref[1]):
             V.append(viol('eqref.result_class',
                           {'real': real[1] if real[0] == 'exc' else 'ok',
